@@ -204,6 +204,26 @@ SCOPE_PROGRAMS = [
     'empty @t() { const byte[] b = "str"; write(b); }',
     'empty @t() { byte[] b = "str"; }',
     'empty @t() { string s = ["a", "b"][0]; writeln(s); }',
+    # loops whose body always exits still may run zero times
+    'int @t(int x) { while (x > 0) { return 1; } }',
+    'int @t(int x) { for (int i = 0; i < x; i += 1) { return i; } }',
+    'int @t(int x) { while (x > 0) { return 1; } return 0; }',
+    'int @t(int x) { while (x > 0) { if (x == 1) { return 1; } else { return 2; } } }',
+    'int @t(int x) { for (;;) { if (x > 0) { break; } if (x < 0) { x += 1; } } }',
+    'int @t(int x) { for (;;) { if (x > 0) { break; } if (x < 0) { x += 1; } } return x; }',
+    'int @t(int x) { while (true) { if (x > 0) { break; } try { x += 1; } undo { } } }',
+    # user-defined overloads of the names of the terminal builtins are ordinary functions
+    'empty all_is_win(int code) { write(code); } int @t() { all_is_win(3); }',
+    'empty all_is_broken(string why) { write(why); } int @t() { all_is_broken("x"); }',
+    'empty all_is_broken(string why) { write(why); } int @t() { all_is_broken("x"); return 1; }',
+    'empty all_is_win(int code) { write(code); } int @t() { all_is_win(); }',
+    'empty !is_defeat(int code) { write(code); } int !t() { !is_defeat(3); }',
+    'empty !is_defeat(int code) { write(code); } int !t() { !is_defeat(); }',
+    # a try whose body can only be defeated inside an expression still may end in its handler
+    'int !v(int x) { !truth_is_defeat(x == 1); return x; } int @t(int x) { try { return !v(x); } undo { } }',
+    'int !v(int x) { !truth_is_defeat(x == 1); return x; } int @t(int x) { try { return !v(x); } stop { write(x); } }',
+    'int !v(int x) { !truth_is_defeat(x == 1); return x; } int @t(int x) { try { return !v(x); } undo { return 2; } }',
+    'int !v(int x) { !truth_is_defeat(x == 1); return x; } int @t(int x) { try { int y = !v(x); return y; } stop { } }',
 ]
 
 
@@ -297,6 +317,26 @@ OV2_TYPES = ['int', 'byte', 'const int[]', 'int[]']
 OV2_ARGS = ['5', "'c'", 'vi', 'vy', 'ai', 'cai', '[1]', 'vy + 1']
 
 
+OV3_SIGS = [('int',), ('byte',), ('int', 'int'), ('byte', 'int'), ('int', 'byte'), ('const int[]',), ('const int[]', 'int'), ('string',), ('string', 'string'), ()]
+OV3_CALLS = ['o()', 'o(vi)', 'o(vy)', 'o(5)', 'o(vi, vi)', 'o(vy, vy)', 'o(vy, 5)', 'o(5, vy)', 'o(ai)', 'o(ai, vy)', 'o([1], 2)', 'o(vs)', 'o(vs, "t")', 'o(vs is byte[])',
+             'o(vi, vi, vi)', "o('c')", 'o(cai, 3)']
+
+
+def ov3_sets():
+    return list(itertools.permutations(OV3_SIGS, 2))
+
+
+def ov3_program(combo, calls, pos=None):
+    fs = []
+    for k, sig in enumerate(combo):
+        params = ', '.join(f'{t} p{j}' for j, t in enumerate(sig))
+        fs.append(f'empty o({params}) {{ write({k}); }}\n')
+    main = f"empty @is_you() {{ {OV_LOCALS} " + ' '.join(f"{c}; write(',');" for c in calls) + ' }\n'
+    if pos is None:
+        pos = len(fs)
+    return ''.join(fs[:pos]) + main + ''.join(fs[pos:])
+
+
 def items(tier):
     out = []
     i = 0
@@ -311,6 +351,10 @@ def items(tier):
     step = 4
     for lo in range(0, len(sets), step):
         out.append((i, 'ov', lo, lo + step))
+        i += 1
+    s3 = ov3_sets()
+    for lo in range(0, len(s3), 6):
+        out.append((i, 'ov3', lo, lo + 6))
         i += 1
     pairs = list(itertools.product(OV2_TYPES, repeat=2))
     sets2 = [c for c in itertools.permutations(pairs, 2)]
@@ -367,6 +411,21 @@ def run_item(item, tier):
                     check_conformance(st, src, prog, [], 2, mon=False, tag=f'overload binding {list(combo)} caller at {pos}')
                     st.add('bindings_executed', len(ok_args))
         st.sample({'overload_set': list(sets[0]), 'arguments': OV_ARGS})
+    elif kind == 'ov3':
+        for combo in ov3_sets()[item[2]:item[3]]:
+            ok = []
+            for c in OV3_CALLS:
+                v = compare(st, f'[overloads of different arity {list(combo)}] {c}', ov3_program(combo, [c]))
+                if v == 'accept':
+                    ok.append(c)
+                if v:
+                    st.count('by_context', f'overload/{v}')
+            if ok:
+                for pos in range(len(combo) + 1):
+                    src = ov3_program(combo, ok, pos)
+                    check_conformance(st, src, parse_program(src), [], 2, mon=False, tag=f'overloads of different arity {list(combo)} caller at {pos}')
+                    st.add('bindings_executed', len(ok))
+        st.sample({'overloads_of_different_arity': [list(x) for x in ov3_sets()[item[2]]], 'calls': OV3_CALLS})
     elif kind == 'ov2':
         pairs = list(itertools.product(OV2_TYPES, repeat=2))
         sets2 = [c for c in itertools.permutations(pairs, 2)]
@@ -408,7 +467,7 @@ def coverage(total, tier):
             'contexts': [name for name, _ in contexts()] + ['scope/shape rules (%d programs)' % len(SCOPE_PROGRAMS)],
             'binary_operator_grid': (f'{len(ATOMS)} x {len(ATOMS)}' if tier == 'thorough' else '34 x 34 (every 3rd atom + 6)') + f' atoms x {len(BINOPS)} operators',
             'overloads': f'all ordered sets of <=3 one-parameter overloads ' + ('' if tier == 'thorough' else '(every 3rd triple) ') + f'over {OV_TYPES} x {len(OV_ARGS)} argument shapes, the caller declared at every position among the overloads; '
-                         f'ordered pairs of two-parameter overloads over {OV2_TYPES} ' + ('(all)' if tier == 'thorough' else '(every 6th)'),
+                         f'all ordered pairs of {len(OV3_SIGS)} signatures of arity 0..2 x {len(OV3_CALLS)} calls; ordered pairs of two-parameter overloads over {OV2_TYPES} ' + ('(all)' if tier == 'thorough' else '(every 6th)'),
         },
     }
 
